@@ -12,7 +12,7 @@ from ..dag import T, walk, show, deep_inline, simplify
 from ..model import FunctionInfo, AnalysisError, dotted
 from ..report import Ctx
 from ..tensor import Typer, kwarg_t, const_int
-from ..util import norm, fn_body_nodes, kwarg
+from ..util import cmp_views, has_cmp, norm, fn_body_nodes, kwarg
 from .c01 import result_kwargs, table_data, strip, mask_chain, addends
 from ..pat import Snips
 from .common import arg_permutation_rule, names_in, calls_named
@@ -171,10 +171,10 @@ def rule_dispatch(ctx: Ctx):
     seen = {}
     for n in branches:
         t = n.ast.test
-        if isinstance(t, ast.Compare) and isinstance(t.comparators[0], ast.Constant) and t.comparators[0].value == 1.0:
-            body_calls = [c for c in ast.walk(n.ast) if isinstance(c, ast.Call) and isinstance(c.func, ast.Attribute)]
-            first = [c.func.attr for st in n.ast.body for c in ast.walk(st) if isinstance(c, ast.Call) and isinstance(c.func, ast.Attribute)]
-            seen[type(t.ops[0]).__name__] = first
+        for l, op, r in cmp_views(t):
+            if "discount_rate" in l and r in ("1.0", "1"):
+                first = [c.func.attr for st in n.ast.body for c in ast.walk(st) if isinstance(c, ast.Call) and isinstance(c.func, ast.Attribute)]
+                seen[{"<": "Lt", "==": "Eq"}.get(op, op)] = first
     ctx.check(seen.get("Lt", [None])[0] == "_evaluate_on_discounted", "DISP-1", f, f.node, "discount < 1 -> discounted evaluation", str(seen),
               "the discounted branch is not taken exactly when discount_rate < 1")
     ctx.check(seen.get("Eq", [None])[0] == "_evaluate_on_undiscounted", "DISP-1", f, f.node, "discount == 1 -> undiscounted evaluation", str(seen),
@@ -233,7 +233,7 @@ def rule_undiscounted(ctx: Ctx, typer: Typer):
     um = f.positional_params[1]
     S = Snips(f)
     asserts = [n for n in fn_body_nodes(f) if isinstance(n, ast.Assert)]
-    ok = any(f"{um}.state_action_reward_matrix <= 0" in ast.unparse(a.test) for a in asserts)
+    ok = any(has_cmp(a.test, f"{um}.state_action_reward_matrix", "<=", "0") for a in asserts)
     ctx.check(ok, "REC-1", f, asserts[0] if asserts else f.node, "non-positive rewards are asserted", "", "the reward-sign precondition is missing")
     cfg = cfg_of(f)
     # roles, bound structurally
